@@ -227,7 +227,8 @@ def make_items(rng, n_items, faults=None):
     pool = [b"", b"a", b"a\0", b"\0", b"bb", b"\xff\x80", b"key-%d" % rng.randrange(5)]
     for i in range(n_items):
         ops = [(rng.choice(pool), rng.choice([1, 1, 2, 5])) for _ in range(rng.choice([0, 0, 1, 2, 3]))]  # 40 %: empty (falsy) item
-        items.append({"id": i, "ops": ops, "ret": rng.randrange(0, 7), "fault": (faults or {}).get(i)})
+        # which entry point the user's callback feeds the sketches through (equal to add(k, v) by C12: dict item; list / whole-key ngram for v == 1)
+        items.append({"id": i, "ops": ops, "ret": rng.randrange(0, 7), "fault": (faults or {}).get(i), "via": rng.choice(["add", "add", "dict", "list", "ngram"])})
     return items
 
 
@@ -266,9 +267,17 @@ def callback(payload, *sketches, **kwargs):
         raise WorkerDied()
     if item["fault"] == "before":
         raise _failure(item, "before touching the sketches")
+    via = item.get("via", "add")
     for s in sketches:
         for k, v in item["ops"]:
-            s.add(k, v)
+            if via == "dict":
+                s.update({k: v})
+            elif via == "list" and v == 1:
+                s.update([k])
+            elif via == "ngram" and v == 1:
+                s.update_ngram([k], len(k) + 1)
+            else:
+                s.add(k, v)
     if item["fault"] == "after":
         raise _failure(item, "after updating the sketches")
     return item["ret"]
@@ -342,7 +351,7 @@ def check_run(res, pid_set, items, n_workers, got, kw, acts, combo, label, as_ge
     """execute, evaluate the oracles, return driver ops"""
     s = sk()
     r, ctx = run_real(items, n_workers, got, kw, as_generator)
-    desc = {"n_workers": n_workers, "assignment": got, "sketches": combo, "items": [{"ops": [(k.hex(), v) for k, v in it["ops"]], "ret": it["ret"], "fault": it["fault"]} for it in items],
+    desc = {"n_workers": n_workers, "assignment": got, "sketches": combo, "items": [{"ops": [(k.hex(), v) for k, v in it["ops"]], "ret": it["ret"], "fault": it["fault"], "via": it.get("via", "add")} for it in items],
             "args": {k: dict(v) for k, v in kw.items()}, "generator": as_generator}
     ops = []
     dies = any(it["fault"] == "die" for it in items)
